@@ -9,6 +9,9 @@ A *spec* is a JSON-able dict naming a configuration:
   {"kind": "L1D"|"LND"|"L2D"|"Avg"|"Avg1D"|"Seq"|"Int", ...parameters}
   {"kind": "Bal", "child": <base spec>, "nchild": 2|3, "strategy": ...}
   {"kind": "DS", "child": <base spec>}
+Wrappers nest: the child of a "Bal" / "DS" spec may itself be a "Bal" or "DS" spec (BalancingLearner over DataSavers,
+DataSaver over a BalancingLearner, BalancingLearner over BalancingLearners, ...); a point of a nested BalancingLearner
+is (index, point of the child), a value told to a DataSaver at any level is {"y": value for what it wraps, "tag": ...}.
 """
 from __future__ import annotations
 
@@ -101,6 +104,15 @@ def f_int(x):
     return math.exp(-30 * (x - 0.3) ** 2) + (0.5 if x > 0.6 else 0.0)
 
 
+def shift_value(v, d):
+    """A told value moved by d: numbers, vectors (lists) and the {"y": ...} records of DataSavers at any depth."""
+    if isinstance(v, dict):
+        return dict(v, y=shift_value(v["y"], d))
+    if isinstance(v, (list, tuple)):
+        return [shift_value(x, d) for x in v]
+    return v + d
+
+
 # ---------------------------------------------------------------- adapters
 class Adapter:
     kind = "?"
@@ -145,6 +157,10 @@ class Adapter:
         if self.specials and rng.random() < prob:
             return rng.choice(self.specials)
         return self.value(p)
+
+    def special_value(self, v):
+        """A special (falsy) value of the innermost learner in the form this learner is told (wrappers wrap it)."""
+        return v
 
     # points for the "hull" opening (LearnerND): well inside / near the border of the domain
     def interior_point(self, rng, l):
@@ -454,8 +470,19 @@ class A_Bal(Adapter):
     def key(self, p):
         return ("b", int(p[0]), self.child.key(p[1]))
 
+    @property
+    def specials(self):
+        return self.child.specials
+
+    def special_value(self, v):
+        return self.child.special_value(v)
+
     def value(self, p):
-        return self.child.value(p[1]) + 0.125 * int(p[0])
+        return shift_value(self.child.value(p[1]), 0.125 * int(p[0]))
+
+    def alt_value(self, p):
+        v = shift_value(self.value(p), 1.25)
+        return dict(v, tag="again") if isinstance(v, dict) else v
 
     def rand_point(self, rng, l):
         i = rng.randrange(len(l.learners))
@@ -464,7 +491,7 @@ class A_Bal(Adapter):
 
     def first_value(self, rng, p, prob=0.15):
         if self.child.specials and rng.random() < prob:
-            return rng.choice(self.child.specials)
+            return self.child.special_value(rng.choice(self.child.specials))
         return self.value(p)
 
     def interior_point(self, rng, l):
@@ -505,6 +532,13 @@ class A_DS(Adapter):
     def count_points(self, keys):
         return self.child.count_points(keys)
 
+    @property
+    def specials(self):
+        return self.child.specials
+
+    def special_value(self, v):
+        return {"y": self.child.special_value(v), "tag": "first"}
+
     def make(self):
         from adaptive import DataSaver
         return DataSaver(self.child.make(), arg_picker=itemgetter("y"))
@@ -526,7 +560,7 @@ class A_DS(Adapter):
 
     def first_value(self, rng, p, prob=0.15):
         if self.child.specials and rng.random() < prob:
-            return {"y": rng.choice(self.child.specials), "tag": "first"}
+            return self.special_value(rng.choice(self.child.specials))
         return self.value(p)
 
     def interior_point(self, rng, l):
@@ -578,6 +612,32 @@ def base_kind(spec):
     return base_kind(spec["child"]) if spec["kind"] in ("Bal", "DS") else spec["kind"]
 
 
+def wrapper_depth(spec):
+    """Number of wrappers around the innermost learner type (0 for a plain learner, >= 2 for nested wrappers)."""
+    return 1 + wrapper_depth(spec["child"]) if spec["kind"] in ("Bal", "DS") else 0
+
+
+def has_bal(spec):
+    """Is there a BalancingLearner anywhere in the configuration?"""
+    return spec["kind"] == "Bal" or spec["kind"] == "DS" and has_bal(spec["child"])
+
+
+def walk(ad, l, path=()):
+    """(path, adapter, learner) of EVERY learner of the tree, outermost first.  A path is a tuple of child indices of
+    BalancingLearners and "w" for the learner wrapped by a DataSaver."""
+    yield path, ad, l
+    k = ad.spec["kind"]
+    if k == "Bal":
+        for i, c in enumerate(l.learners):
+            yield from walk(ad.child, c, path + (i,))
+    elif k == "DS":
+        yield from walk(ad.child, l.learner, path + ("w",))
+
+
+def path_name(path):
+    return "[" + ".".join(str(x) for x in path) + "]"
+
+
 # ---------------------------------------------------------------- observation
 def _l2d_leaves(ad, l):
     k = ad.spec["kind"]
@@ -611,6 +671,24 @@ def snapshot(ad: Adapter, l, fresh=False):
         s["fresh_real"] = guarded(lambda: max(c.loss(real=True) for c in l.learners))
         s["fresh_exp"] = guarded(lambda: max(c.loss(real=False) for c in l.learners))
         s["child_exp"] = s["fresh_exp"]         # what the children themselves answer (before any cache of theirs is dropped)
+    if wrapper_depth(ad.spec) >= 2:
+        # nested wrappers: what every learner INSIDE reports itself, read from that object (not through the outer
+        # wrappers): data, pending points, npoints, both losses of each BalancingLearner / innermost learner, and the
+        # extra_data of each DataSaver.  (A DataSaver's loss is the wrapped learner's loss: read once, there.)
+        for path, a, b in walk(ad, l):
+            if not path:
+                continue
+            pre = "inner" + path_name(path) + "."
+            if a.spec["kind"] == "DS":
+                s[pre + "extra_data"] = guarded(lambda: tuple(sorted(((a.child.key(x), canon(r)) for x, r in b.extra_data.items()), key=repr)), ident)
+                continue
+            s[pre + "data"] = guarded(lambda: tuple(sorted(a.data_items(b), key=repr)), ident)
+            s[pre + "pending"] = guarded(lambda: tuple(sorted(a.pending(b), key=repr)), ident)
+            s[pre + "npoints"] = guarded(lambda: int(b.npoints))
+            s[pre + "loss_real"] = guarded(lambda: b.loss(real=True))
+            s[pre + "loss_exp"] = guarded(lambda: b.loss(real=False))
+            if a.spec["kind"] not in ("Bal", "DS"):
+                s[pre + "extras"] = guarded(lambda: a.extras(b), ident)
     if fresh and base_kind(ad.spec) == "L2D":
         for b in _l2d_leaves(ad, l):
             b._ip_combined = None
